@@ -1,6 +1,7 @@
 package drivers
 
 import (
+	"math/big"
 	"encoding/json"
 	"fmt"
 	"os"
@@ -272,6 +273,26 @@ func c13Scenarios(disk bool) []*schedScenario {
 		},
 		Ops: []schedOp{c.hs(0, c.L1), c.hs(0, c.L3)},
 	})
+	// s10b: the same with certificates of two different CAs and three unrelated trusted signature certificates
+	// configured (what one handshake puts together as its chains must not reach the other one)
+	{
+		ca2 := world.Issue(c.p.Root, world.CertOpt{CN: "c13 second issuing CA", IsCA: true, KeyKind: "ec", KeyIdx: 6, Serial: big.NewInt(66)})
+		extra := world.Issue(nil, world.CertOpt{CN: "c13 unrelated CA", IsCA: true, KeyKind: "ec", KeyIdx: 7, Serial: big.NewInt(67)})
+		l2 := world.Leaf(ca2, bi(113), []string{urlB}, nil)
+		vb2 := world.SimpleCRL(ca2, 1, 113).DER()
+		o := base
+		o.Trusted = []*x509Cert{c.p.OtherCA.Cert, c.p.CARSA.Cert, extra.Cert}
+		scs = append(scs, &schedScenario{Name: name("s10b-first-use-two-CAs-three-trusted-signers"),
+			Setup: func(x *schedCtx) {
+				w := c.mkWorld(x, o)
+				w.Net.Serve(urlA, "v1", c.v1)
+				w.Net.Serve(urlB, "vb2", vb2)
+			},
+			Ops: []schedOp{c.hs(0, c.L1), {Name: "hs(113,CA2)", Fn: func(x *schedCtx) string {
+				return x.W[0].Lookup(l2, world.Chain(l2, ca2, c.p.Root)).String()
+			}}},
+		})
+	}
 	// s11: two CRLs are loaded; a handshake walks over both while a tick refreshes both (the first one to a new version)
 	scs = append(scs, &schedScenario{Name: name("s11-lookup-over-two-crls-vs-refresh"),
 		Setup: func(x *schedCtx) {
